@@ -12,6 +12,7 @@ import Cte.Model.Bvh
 import Cte.Model.Box
 import Cte.Model.Ray
 import Cte.Model.Fshobst
+import Cte.Model.Schedules
 open Cte
 
 def warnKindStr : WarnKind → String
@@ -238,6 +239,31 @@ def opFshobst (req : J) : J :=
            ("factor", J.arr [jr (fshobst (Fns.approx 0) ins), jr (fshobst (Fns.approx (-1)) ins), jr (fshobst (Fns.approx 1) ins)]),
            ("raw", jr (fshobstRaw ins)), ("f_detail", J.arr detail)])))]
 
+/-- op `yeardays`: every yearly schedule of the model expanded to its daily-schedule ids -/
+def opYearDays (m : Model) : J :=
+  J.obj [("years", J.arr (m.schedules.year.map (fun y =>
+    let days := yearAsDays m.schedules y.id
+    J.obj [("id", J.str y.id), ("days", jStrs days),
+           ("n_values", J.ofNat ((days.map (fun d => ((m.schedules.getDay d).map (·.values.length)).getD 0)).foldl (· + ·) 0))])))]
+
+/-- op `enddates`: [[day, month], …] → period lengths -/
+def opEndDates (req : J) : J :=
+  let dates : List (Nat × Nat) := match req.get? "dates" with
+    | some (J.arr l) => l.filterMap (fun p => match p with
+        | J.arr [J.num false d 0, J.num false mo 0] => some (d, mo)
+        | _ => none)
+    | _ => []
+  let ends := dates.map (fun dm => dayOfYear dm.1 dm.2)
+  J.obj [("ends", J.arr (ends.map J.ofInt)),
+         ("counts", match periodLengths ends with
+            | some l => J.arr (l.map J.ofNat)
+            | none => J.null)]
+
+/-- op `occupancy`: yearly occupied time and mean internal load -/
+def opOccupancy (m : Model) : J :=
+  J.obj [("hours_in_use", J.ofNat (hoursInUse m)), ("average_load", jr (averageLoad (Fns.approx 0) m)),
+         ("loads_avg", J.obj (m.loadsProps.map (fun l => (l.id, jr l.loadsAvg))))]
+
 def withModel (req : J) (f : Model → J) : J :=
   match req.get? "model" with
   | none => J.obj [("error", J.str "no model")]
@@ -255,6 +281,9 @@ def handle (line : String) : String :=
       match req.get? "op" with
       | some (J.str "check") => withModel req opCheck
       | some (J.str "purge") => withModel req opPurge
+      | some (J.str "yeardays") => withModel req opYearDays
+      | some (J.str "occupancy") => withModel req opOccupancy
+      | some (J.str "enddates") => opEndDates req
       | some (J.str "indicators") => withModel req (opIndicators req)
       | some (J.str "classify") => opClassify req
       | some (J.str "bvh") => opBvh req
